@@ -7,10 +7,8 @@ from ...core.time import TimeDependent
 
 class TDRedfieldRelaxationTensor(RedfieldRelaxationTensor, TimeDependent):
 
-    # FIXME: mimick the time-independent case
-    Lm = None  # we isolate the operators defined by inheritance as time-independent
-    Ld = None
-    Km = None
+    # the operators Km, Lm and Ld are the basis-managed ones of the
+    # time-independent tensor; Lm and Ld carry a leading time index
     
     def _implementation(self, ham, sbi):
         """ Reference implementation, completely in Python
@@ -240,14 +238,17 @@ class TDRedfieldRelaxationTensor(RedfieldRelaxationTensor, TimeDependent):
         dim = SS.shape[0]
 
         if not self._data_initialized:
+            # here we work with the storage of the managed operators; reading
+            # them through the properties would ask for this transformation
             for tt in range(self.Nt):
-                for m in range(self.Km.shape[0]):
-                    self.Lm[tt, m, :, :] = \
-                    numpy.dot(S1,numpy.dot(self.Lm[tt, m, :, :],SS))
-                    self.Ld[tt, m, :, :] = \
-                    numpy.dot(S1,numpy.dot(self.Ld[tt, m, :, :],SS))            
-            for m in range(self.Km.shape[0]):
-                self.Km[m, :, :] = numpy.dot(S1,numpy.dot(self.Km[m, :, :],SS))
+                for m in range(self._Km.shape[0]):
+                    self._Lm[tt, m, :, :] = \
+                    numpy.dot(S1,numpy.dot(self._Lm[tt, m, :, :],SS))
+                    self._Ld[tt, m, :, :] = \
+                    numpy.dot(S1,numpy.dot(self._Ld[tt, m, :, :],SS))            
+            for m in range(self._Km.shape[0]):
+                self._Km[m, :, :] = numpy.dot(S1,
+                                              numpy.dot(self._Km[m, :, :],SS))
                 
             return
         
